@@ -195,6 +195,57 @@ def work_builtin_exact(item):
     return st
 
 
+def work_large(item):
+    """a user-owned collection grows without limit: 700 additions (beyond the 512 of the built-in collection), by AddCrystal and by a 300-crystal
+    file, from several initial capacities; everything listed and retrievable afterwards"""
+    lib, src, seed = item
+    st = Stats()
+    h = xrl.Headers(src)
+    L = xrl.Lib(lib, h)
+    import c15
+    arr1 = (xrl.CrystalAtom * 1)()
+    arr1[0].Zatom, arr1[0].fraction = 14, 1.0
+    for cap0 in (0, 3, 600):
+        a, err = L.call("Crystal_ArrayInit", cap0)
+        names = []
+        ok = True
+        for k in range(400):
+            cs = xrl.CrystalStruct()
+            nm = ("big_%04d" % ((k * 7919) % 10000)).encode()
+            cs.name = nm
+            cs.a = cs.b = cs.c = 5.0
+            cs.alpha = cs.beta = cs.gamma = 90.0
+            cs.n_atom = 1
+            cs.atom = ctypes.cast(arr1, ctypes.POINTER(xrl.CrystalAtom))
+            st.ev()
+            rv, err = L.call("Crystal_AddCrystal", ctypes.byref(cs), a)
+            if rv != 1:
+                st.violation("add:rejected-new", dict(initial_capacity=cap0, entries=len(names)), "1", dict(rv=rv, error=err))
+                ok = False
+                break
+            names.append(nm)
+        if ok:
+            path = os.path.join(os.environ.get("VERIF_TMP") or "/var/tmp", "xrlv.c14.large.%d.dat" % os.getpid())
+            fnames = [("file_%04d" % k).encode() for k in range(300)]
+            with open(path, "w") as f:
+                f.write("".join("#S 14 %s\n#UCELL 5 5 5 90 90 90\n#N 5\n#L Z F X Y Z\n14 1.0 0 0 0\n" % n.decode() for n in fnames) + "#EOF\n")
+            st.ev()
+            rv, err = L.call("Crystal_ReadFile", path.encode(), a)
+            os.unlink(path)
+            if rv != 1:
+                st.violation("readfile:wellformed-rejected", dict(initial_capacity=cap0, entries=len(names), file_crystals=300), "1", dict(rv=rv, error=err))
+            else:
+                names += fnames
+            lst, n, _ = c15.cstr_list(L, "Crystal_GetCrystalsList", a)
+            st.ev()
+            st.nt()
+            if lst != sorted(names):
+                st.violation("list:mismatch", dict(initial_capacity=cap0, expected=len(names)), len(names), n)
+        L.fn["Crystal_ArrayFree"](a)
+    st.sample("large_collection", dict(entries=700, initial_capacities=[0, 3, 600]), cap=1)
+    return st
+
+
 def run(ctx):
     import concurrent.futures as cf
     quick = ctx.quick
@@ -218,6 +269,7 @@ def run(ctx):
             ctx.stats.merge(st)
     ctx.stats.merge(common.pmap(work_builtin, [(bp["lib"], bp["src"], ctx.seed)]))
     ctx.stats.merge(common.pmap(work_builtin_exact, [(bp["lib"], bp["src"], ctx.seed)]))
+    ctx.stats.merge(common.pmap(work_large, [(bp["lib"], bp["src"], ctx.seed)]))
     ctx.assumptions = ["leak freedom of Crystal_ArrayFree is decided by C04 (LeakSanitizer histories); here ASan/UBSan watch for corruption",
                        "file names are limited to 20 characters by the documented '#S <num> <name>' format (%20s)"]
 
@@ -231,6 +283,8 @@ def replay(ctx, rec):
     bad += [v for v in st2.violations if v["sig"] == rec["signature"]]
     st3 = common.pmap(work_builtin_exact, [(b["lib"], b["src"], 1)])
     bad += [v for v in st3.violations if v["sig"] == rec["signature"]]
+    st4 = common.pmap(work_large, [(b["lib"], b["src"], 1)])
+    bad += [v for v in st4.violations if v["sig"] == rec["signature"]]
     for v in bad[:2]:
         print("replay:", v["sig"], v["case"])
     return not bad
